@@ -58,6 +58,20 @@ func init() {
 		add("f64x2.replace_lane-load", true, cat(vecA(), lg(4), []byte{0x2b, 0x03, 0x00}, simd(0x22), []byte{lane}))
 		add("i64x2.replace_lane-load", true, cat(vecA(), lg(4), []byte{0x29, 0x03, 0x00}, simd(0x1e), []byte{lane}))
 	}
+	// lane stores and loads (memory at parameter 4): the access is as wide as the lane
+	type lm struct {
+		op    uint32
+		align byte
+		last  byte
+	}
+	for _, k := range []lm{{0x58, 0, 15}, {0x59, 1, 7}, {0x5a, 2, 3}, {0x5b, 3, 1}} {
+		for _, lane := range []byte{0, k.last} {
+			add("v128.store_lane", true, cat(lg(4), vecA(), simd(k.op), []byte{k.align, 0x00, lane}, vecA()))
+		}
+	}
+	for _, k := range []lm{{0x54, 0, 15}, {0x55, 1, 7}, {0x56, 2, 3}, {0x57, 3, 1}} {
+		add("v128.load_lane", true, cat(lg(4), vecA(), simd(k.op), []byte{k.align, 0x00, k.last}))
+	}
 	for lane := byte(0); lane < 4; lane++ {
 		add("i32x4.replace_lane", false, cat(vecA(), lg(4), simd(0x1c), []byte{lane}))
 		add("f32x4.replace_lane", false, cat(vecA(), lg(4), []byte{0xbe}, simd(0x20), []byte{lane}))
